@@ -94,7 +94,7 @@ def run_seq_with_tasks(laze, files, steps):
                 rc, so, se = "timeout", "", ""
             argvs = [ln.split("\x1f") if ln else [] for ln in open(nlog).read().split("\n")[:-1]] if os.path.exists(nlog) else []
             tasks = [tuple(ln.split(" ", 1)) for ln in open(tlog).read().splitlines()] if os.path.exists(tlog) else []
-            out.append(dict(rc=rc, stdout=so, stderr=se, ninja_argv=argvs, tasks=tasks, root=root, argv=args[1:], cache_hit=("laze: reading cache took" in so)))
+            out.append(dict(rc=rc, stdout=so, stderr=se, ninja_argv=argvs, tasks=tasks, root=root, argv=args[1:], cache_hit=e2e.was_cache_hit(e2e.take_events(tmp), so)))
         return out
     finally:
         shutil.rmtree(tmp, ignore_errors=True)
